@@ -435,8 +435,7 @@ def step_text(st):
     return st['mn'] + (' ' + ', '.join(parts) if parts else '')
 
 
-def isa_yaml(isa, cfg):
-    import yaml
+def isa_doc(isa, cfg):
     doc = {
         'description': 'verif generated ISA',
         'general': {'address_size': cfg['addr_bits'], 'endian': isa['endian'], 'origin': cfg['origin'], 'page_size': cfg['page'],
@@ -475,7 +474,12 @@ def isa_yaml(isa, cfg):
                     d['operands'] = y_parser(mv['parser'])
                 lst.append(d)
             doc['macros'][mn] = lst
-    return yaml.safe_dump(doc, default_flow_style=False, sort_keys=False)
+    return doc
+
+
+def isa_yaml(isa, cfg):
+    import yaml
+    return yaml.safe_dump(isa_doc(isa, cfg), default_flow_style=False, sort_keys=False)
 
 
 # ------------------------------------------------------------------------------------------------ Coq rendering
